@@ -128,12 +128,23 @@ def lake_build(targets):
 
 
 def theorem_names(module):
-    """names of the theorems stated in a Props module (the obligations)"""
+    """fully qualified names of the theorems stated in a Props module (the obligations)"""
     path = os.path.join(LEAN, *module.split(".")) + ".lean"
     src = strip_comments(open(path).read())
-    ns = re.findall(r"^namespace\s+(\S+)", src, re.M)
-    prefix = (ns[0] + ".") if ns else ""
-    return [prefix + m for m in re.findall(r"^theorem\s+(\S+)", src, re.M)], path
+    stack, names = [], []
+    for line in src.split("\n"):
+        m = re.match(r"^namespace\s+(\S+)", line)
+        if m:
+            stack.append(m.group(1))
+            continue
+        m = re.match(r"^end\s+(\S+)", line)
+        if m and stack and stack[-1] == m.group(1):
+            stack.pop()
+            continue
+        m = re.match(r"^(?:@\[[^\]]*\]\s*)?(?:protected\s+|private\s+)?theorem\s+(\S+)", line)
+        if m:
+            names.append(".".join(stack + [m.group(1)]))
+    return names, path
 
 
 def imported_sources(module, seen=None):
